@@ -15,6 +15,7 @@ import (
 //	corpus  : a corpus snippet as is
 //	big     : concatenation of error-free corpus bodies crossing the 1024-entry pool blocks
 //	program : a G1/G2 generated program (valid by construction) in a PRNG trivia layout
+//	scaled  : one construct repeated or nested n times (71 shapes, n up to 70 000 / 400 KB): size and count thresholds
 
 type parseCase struct {
 	Src   []byte
@@ -80,6 +81,16 @@ func genParseCase(seed int64, label string, idx int, hostileShare int) parseCase
 		return []byte(cor[rr.Intn(len(cor))].Src)
 	}
 	k := r.Intn(100)
+	if r.Chance(1, 25) {
+		// a scaled valid program: one construct repeated or nested n times (thresholds in counts, lines, offsets, depth)
+		maxN, maxDeep, maxBytes := 2000, 150, 60000
+		switch {
+		case len(label) >= 3 && (label[:3] == "C01" || label[:3] == "C02" || label[:3] == "C04" || label[:3] == "C05" || label[:3] == "C07" || label[:3] == "C12"):
+			maxN, maxDeep, maxBytes = 70000, 1500, 400000
+		}
+		src, _, _ := gen.Scaled(r.Split("scaled"), fam, maxN, maxDeep, maxBytes)
+		return parseCase{src, ver, "scaled"}
+	}
 	switch {
 	case k < hostileShare:
 		return parseCase{gen.Hostile(r, prog), ver, "hostile"}
